@@ -1,6 +1,7 @@
 # Pylint does not work with dynamically generated types, which @operator does
 # pylint: disable=isinstance-second-argument-not-valid-type
 
+import copy
 import struct
 
 from .architecture import instruction_opcodes
@@ -73,21 +74,26 @@ class RegisterModeOperandStub:
         # Hoisting. 'a+b(c)' is parsed as 'a+(b(c))', not as '(a+b)(c)'. This is
         # great for function calls, but terrible for index addressing. Hence
         # we're 'hoisting' registers up here.
+        # The parsed tree is shared between the copies of a '.repeat' body, so
+        # the hoisted expression is built from copies of the tokens instead of
+        # rewriting them in place.
         def hoist(token):
             if isinstance(token, operators.InfixOperator) and not isinstance(token, operators.call):
-                token.rhs = hoist(token.rhs)
-                if isinstance(token.rhs, operators.call) and try_as_register(token.rhs.rhs, state) is not None:
-                    register = token.rhs.rhs
+                rhs = hoist(token.rhs)
+                if isinstance(rhs, operators.call) and try_as_register(rhs.rhs, state) is not None:
+                    register = rhs.rhs
                     ctx_end = token.ctx_end
-                    token.rhs = token.rhs.lhs
+                    token = copy.copy(token)
+                    token.rhs = rhs.lhs
                     token.ctx_end = token.rhs.ctx_end
                     return operators.call(token.ctx_start, ctx_end, token, register)
             elif isinstance(token, operators.PrefixOperator):
-                token.operand = hoist(token.operand)
-                if isinstance(token.operand, operators.call) and try_as_register(token.operand.rhs, state) is not None:
-                    register = token.operand.rhs
+                operand = hoist(token.operand)
+                if isinstance(operand, operators.call) and try_as_register(operand.rhs, state) is not None:
+                    register = operand.rhs
                     ctx_end = token.ctx_end
-                    token.operand = token.operand.lhs
+                    token = copy.copy(token)
+                    token.operand = operand.lhs
                     token.ctx_end = token.operand.ctx_end
                     return operators.call(token.ctx_start, ctx_end, token, register)
             return token
